@@ -563,6 +563,10 @@ def run(prog, ctx):
 
     # ---------------- C02.K a decision taken after an insertion looks at the count after it (common.stale_count_decisions)
     C.stale_count_rule(res, prog, "C02.K", "hll::", "HLL coupon list/set/array")
+    # ---------------- C02.Z a table and the recorded log2 of its size change together: no callee sees one without the other
+    n_z = 0
+    n_z += C.coupled_store_rule(res, prog, "C02.Z", "hll::aux_map::AuxMap", "entries", "lg_size")
+    res.rule("C02.Z", n_z, 0, "table / size field pairs")
     res.explanation = ("structural rules over the MIR of the %d functions reachable from HllSketch::update: guarded strict max-write, slot "
                        "formula (evaluated on %d grid points), estimator pairing, replay loops, 4-bit encoding agreement, probe geometry, "
                        "dispatch completeness" % (len(reach), 18 * 12))
